@@ -138,6 +138,13 @@ CLAIMED = {
         "Relies on angular exactness (C02). Derivatives are compared inside one spline interval; the centre itself is excluded from gradient checks (the spline-times-harmonic interpolant has a cusp there).",
         "DESIGN.md 3/C09",
     ),
+    "C15": (
+        "exploration",
+        "product order {1,2,3} x 3 coefficient sets (constants, callables, mixed) x 3 manufactured solutions (right-hand side derived symbolically) x 19 transform settings (none, identity, 7 inverse maps, Power/Exp/LinearInfinite, 6 forward maps on an interval in (-1,1)) x {IVP x 5 methods, BVP x 3 boundary forms x initial guess} x no_derivatives, each solve compared on 9 points with the closed-form solution and its derivatives with respect to the original variable",
+        "Every order/transform/solver combination of the alphabet is solved (2.6e3 solves quick, about 1e4 thorough), so each Bell-polynomial coefficient, the mapping of initial data and of returned derivatives, and every transform's deriv/deriv2/deriv3 are exercised at third order with non-trivial k and m.",
+        "Tolerance 200 x the requested solver tolerance (x50 for the lower-order IVP methods); decreasing maps are inadmissible for the BVP solver (SciPy rejects a decreasing mesh), clean non-convergence is inadmissible; the random default initial guess is seeded.",
+        "DESIGN.md 3/C15",
+    ),
 }
 
 NOT_YET = "check not built yet in this session (work in progress; see DESIGN.md section 8 for the order of work)"
